@@ -158,11 +158,33 @@ def run(ctx):
                             rs["files"][ck].append((m, rs["files"][ck][-1][1]))
                     dist["expanding_upper"] = dist.get("expanding_upper", 0) + 1
         rs = rulesets.normalise(rs)
+        has_m = any(x[0] == "M" for x in rs["grammar"])
+        skip_brute = has_m and len(rs["grammar"]) > 1 and ctx.rng.random() < 0.6
+        if skip_brute and rs["grammar"][0][0] == "M" and ctx.rng.random() < 0.7:
+            # the Markov line somewhere behind other structures (a trained ruleset has it wherever its probability puts it)
+            j = ctx.rng.randrange(1, len(rs["grammar"]))
+            rs["grammar"][0], rs["grammar"][j] = rs["grammar"][j], rs["grammar"][0]
         try:
-            g = impl_next.load_grammar(rs, sc, False, ctx.rng.random() < 0.2)
+            g = impl_next.load_grammar(rs, sc, skip_brute, ctx.rng.random() < 0.2)
         except Exception:
             continue
         dist["rulesets"] += 1
+        if skip_brute:
+            # --skip_brute: honeywords / walks draw from the structures of the FILE without the Markov line, each with its file
+            # probability divided by what is left (the loader's own arithmetic, float for float), whatever the position of M
+            import re as _re
+            dist["skip_brute_rulesets"] = dist.get("skip_brute_rulesets", 0) + 1
+            pm = sum(float(p_) for s_, p_ in rs["grammar"] if s_ == "M")
+            dist["skip_brute_markov_not_first"] = dist.get("skip_brute_markov_not_first", 0) + (rs["grammar"][0][0] != "M")
+            want_b = [([t_ for tok in _re.findall(r"[A-Z][0-9]+", s_) for t_ in ([tok, "C" + tok[1:]] if tok[0] == "A" else [tok])],
+                       float(p_) / (1.0 - pm)) for s_, p_ in rs["grammar"] if s_ != "M"]
+            got_b = [(list(b["replacements"]), b["prob"]) for b in g.base]
+            if got_b != want_b:
+                k_ = next((i for i, (a_, b_) in enumerate(zip(got_b, want_b)) if a_ != b_), min(len(got_b), len(want_b)))
+                vio.append({"sig": "C16:base-mass:skip-brute", "what": "--skip_brute: structure #%d is drawn with probability %r, the ruleset "
+                            "files say %r (Markov line %s)" % (k_, got_b[k_] if k_ < len(got_b) else None, want_b[k_] if k_ < len(want_b) else None,
+                                                              "first" if rs["grammar"][0][0] == "M" else "not first"),
+                            "replay": {"ruleset": rs, "skip_brute": True, "draws": []}})
         vm = rulesets.VarMap()
         bases = [(b["prob"], [vm.id(x) for x in b["replacements"]]) for b in g.base]
         table = [[(grp["prob"], len(grp["values"])) for grp in g.grammar[nm]] for nm in vm.names]
@@ -392,6 +414,18 @@ def replay(ctx, data):
     if "ruleset" not in inp or "draws" not in inp:
         return []
     sc = common.scratch()
+    if inp.get("skip_brute"):
+        import re as _re
+        rs = inp["ruleset"]
+        g = impl_next.load_grammar(rs, sc, True, False)
+        pm = sum(float(p_) for s_, p_ in rs["grammar"] if s_ == "M")
+        want_b = [([t_ for tok in _re.findall(r"[A-Z][0-9]+", s_) for t_ in ([tok, "C" + tok[1:]] if tok[0] == "A" else [tok])],
+                   float(p_) / (1.0 - pm)) for s_, p_ in rs["grammar"] if s_ != "M"]
+        got_b = [(list(b["replacements"]), b["prob"]) for b in g.base]
+        if got_b != want_b:
+            return [{"sig": "C16:base-mass:skip-brute", "what": "--skip_brute: structures are drawn with %r, the files say %r" % (got_b[:3], want_b[:3]),
+                     "replay": inp}]
+        return []
     g = impl_next.load_grammar(inp["ruleset"], sc)
     try:
         item = with_script(Script(inp["draws"]), g.random_walk)
